@@ -339,6 +339,36 @@ pub fn shaped_namespaces() -> Vec<(String, Vec<Tags>)> {
             out.push((format!("arms{l1}x{l2}"), rows));
         }
     }
+    // a def defined twice (the later row replaces the earlier one: an extension lib re-parenting a
+    // def of a base lib), identical rows twice, supertypes listed twice, rows in reverse order
+    // (subtypes before their supertypes)
+    {
+        let basic = |mid: &str, leaf_is: &[&str]| -> Vec<Tags> {
+            vec![
+                def_row("root", &[]),
+                def_row("equip", &["root".to_string()]),
+                def_row("point", &["root".to_string()]),
+                def_row("meter", &[mid.to_string()]),
+                def_row("leaf", &leaf_is.iter().map(|x| x.to_string()).collect::<Vec<_>>()),
+            ]
+        };
+        let mut rows = basic("equip", &["meter"]);
+        rows.push(def_row("meter", &["point".to_string()]));
+        out.push(("redefined-reparented".to_string(), rows.clone()));
+        rows.push(def_row("meter", &[]));
+        out.push(("redefined-twice-to-root".to_string(), rows));
+        let mut rows = basic("equip", &["meter"]);
+        rows.push(def_row("meter", &["equip".to_string()]));
+        rows.push(def_row("leaf", &["meter".to_string()]));
+        out.push(("identical-rows-twice".to_string(), rows));
+        out.push(("supertype-listed-twice".to_string(), basic("equip", &["meter", "meter", "point", "meter"])));
+        let mut rows = basic("equip", &["meter", "point"]);
+        rows.reverse();
+        out.push(("rows-reversed".to_string(), rows));
+        let mut rows = vec![def_row("meter", &["point".to_string()])];
+        rows.extend(basic("equip", &["meter"]));
+        out.push(("redefined-first-row-loses".to_string(), rows));
+    }
     // conjuncts of 2, 3 and 4 parts, overlapping, over markers that are subtypes of each other;
     // names that are prefixes of one another
     for variant in 0..16usize {
@@ -405,7 +435,7 @@ fn check_shaped(name: &str, rows: &[Tags], local: &mut Local) {
 // ------------------------------------------------------------------------------ real database
 
 pub fn real_rows() -> Vec<Tags> {
-    let text = std::fs::read_to_string("/repo/tests/defs/defs.zinc").unwrap_or_else(|e| crate::engine::machinery(&format!("defs.zinc: {e}")));
+    let text = std::fs::read_to_string(format!("{}/tests/defs/defs.zinc", crate::engine::repo_dir())).unwrap_or_else(|e| crate::engine::machinery(&format!("defs.zinc: {e}")));
     // parsed by the reference reader, cross-checked against libhaystack's decode
     let refv = crate::model::zinc_ref::read(&text).unwrap_or_else(|e| crate::engine::machinery(&format!("reference reader cannot read defs.zinc: {e}")));
     let libv = libhaystack::encoding::zinc::decode::from_str(&text).unwrap_or_else(|e| crate::engine::machinery(&format!("libhaystack cannot read defs.zinc: {e}")));
@@ -420,7 +450,7 @@ pub fn real_rows() -> Vec<Tags> {
 
 pub fn run(tier: Tier) -> i32 {
     let mut run = Run::new("C13", tier, "model_checking");
-    run.rule = "every defs grid over symbols s0..s(n-1) (n = 3 quick, 4 thorough) where is(si) ranges over all subsets of {s0..s(i-1), undefined zz} (all DAGs incl. diamonds and multiple inheritance), crossed with every assignment absent / is[] / is[s_last] / is[zz] to the conjuncts s0-s1, s1-s2, s0-s1-s2 and the 8 combinations of: feature key f:k, a `choice` root, rows without def / with non-Symbol def and non-Symbol `is` entries; for each namespace every query (supertypes_of, all_supertypes_of, subtypes_of, all_subtypes_of, inheritance, choices_for, has_subtype, has/get, conjuncts_defs, fits on all ordered pairs) on 12+ symbol names incl. undefined ones, and reflect + Reflection::fits + the filter `^sym` on all 243 records over {s0..s3, zz} x {absent, Marker, \"v\"}. Plus ~190 shaped taxonomies that four symbols cannot express (chains of every length 1..40, 64, 100, 300; one def with 2..40, 64, 100 direct supertypes; 1..8 stacked diamonds with an independent branch listed first / last / absent; layered lattices 2-3 wide and 1-6 high; diamonds with arms of lengths 1..6 x 1..6; 2-, 3- and 4-part and overlapping conjuncts over markers that are subtypes of each other and names that are prefixes of one another): all queries on all symbols, fits on all pairs, reflect on every single-marker record and every subset of a 7-marker core. Plus tests/defs/defs.zinc: all symbols for the unary queries, all ordered pairs for fits (quick: a 300-symbol prefix), reflect on every 1- and 2-tag marker record of a tag core and on the tag set of every conjunct. Oracle: adjacency map built from the `is` lists (answers compared as sets of def names). states = namespaces, transitions = queries".into();
+    run.rule = "every defs grid over symbols s0..s(n-1) (n = 3 quick, 4 thorough) where is(si) ranges over all subsets of {s0..s(i-1), undefined zz} (all DAGs incl. diamonds and multiple inheritance), crossed with every assignment absent / is[] / is[s_last] / is[zz] to the conjuncts s0-s1, s1-s2, s0-s1-s2 and the 8 combinations of: feature key f:k, a `choice` root, rows without def / with non-Symbol def and non-Symbol `is` entries; for each namespace every query (supertypes_of, all_supertypes_of, subtypes_of, all_subtypes_of, inheritance, choices_for, has_subtype, has/get, conjuncts_defs, fits on all ordered pairs) on 12+ symbol names incl. undefined ones, and reflect + Reflection::fits + the filter `^sym` on all 243 records over {s0..s3, zz} x {absent, Marker, \"v\"}. Plus ~190 shaped taxonomies that four symbols cannot express (chains of every length 1..40, 64, 100, 300; one def with 2..40, 64, 100 direct supertypes; 1..8 stacked diamonds with an independent branch listed first / last / absent; layered lattices 2-3 wide and 1-6 high; diamonds with arms of lengths 1..6 x 1..6; 2-, 3- and 4-part and overlapping conjuncts over markers that are subtypes of each other and names that are prefixes of one another; a def defined twice / re-parented by a later row, identical rows twice, a supertype listed twice, rows in reverse order): all queries on all symbols, fits on all pairs, reflect on every single-marker record and every subset of a 7-marker core. Plus tests/defs/defs.zinc: all symbols for the unary queries, all ordered pairs for fits (quick: a 300-symbol prefix), reflect on every 1- and 2-tag marker record of a tag core and on the tag set of every conjunct. Oracle: adjacency map built from the `is` lists (answers compared as sets of def names). states = namespaces, transitions = queries".into();
     run.assume("cyclic `is` graphs are outside the statement and not generated");
     run.assume("answers are compared as sets of def names (the statement does not fix an order)");
     crate::engine::quiet_panics();
